@@ -154,8 +154,12 @@ def collisions_proto_plus_deps(chk):
                                messages=[dict(name='Label', fields=[dict(name='text')]), dict(name='Ping', fields=[dict(name='x')])],
                                services=[dict(name='Basics', methods=[dict(name='DoPing', **{'in': 'Ping', 'out': 'Ping'},
                                                                             http=[dict(verb='post', uri='/v1/ping', body='*')])])])])
-    dep_file = dict(dep_api['files'][0], target=False, imports=[])
+    # the dependency library also has a file named by a client control parameter (request.proto -> module request_)
+    dep_api['files'].insert(0, dict(name='acme/basics/v1/request.proto', package='acme.basics.v1',
+                                    messages=[dict(name='Ask', fields=[dict(name='q')])]))
+    dep_file = dict(dep_api['files'][1], target=False, imports=[])
     dep_file = {k: v for k, v in dep_file.items() if k != 'services'}
+    dep_req_file = dict(dep_api['files'][0], target=False, imports=[])
     own = dict(name='acme/nm/v1/common.proto', package=PKG, messages=[dict(name='Local', fields=[dict(name='y')])])
     main_ = dict(name='acme/nm/v1/svc.proto', package=PKG,
                  messages=[dict(name='Req', fields=[dict(name='a', type='.acme.basics.v1.Label'), dict(name='b', type='Local')]),
@@ -173,6 +177,12 @@ def collisions_proto_plus_deps(chk):
             (':split', split_, "r = nm_v1.Req(a=dep_common.Label(text='t')); l = nm_v1.Loc(b=nm_v1.Local(y='z'))\n"
                                "assert nm_v1.Req.deserialize(nm_v1.Req.serialize(r)).a.text == 't' and nm_v1.Loc.deserialize(nm_v1.Loc.serialize(l)).b.y == 'z'\nprint('ok')")):
         _ppd_variant(chk, variant, dep_api, dict(files=[dep_file, own, mainfile]), code_body)
+    ctrl_ = dict(name='acme/nm/v1/svc.proto', package=PKG,
+                 messages=[dict(name='Req', fields=[dict(name='ask', type='.acme.basics.v1.Ask')]), dict(name='Out', fields=[dict(name='name')])],
+                 services=[dict(name='Nm', methods=[dict(name='Mix', **{'in': 'Req', 'out': 'Out'}, http=[dict(verb='post', uri='/v1/mix', body='*')])])])
+    _ppd_variant(chk, ':control-named-file', dep_api, dict(files=[dep_req_file, dep_file, ctrl_]),
+                 "from acme.basics_v1.types import request_ as dep_request\nr = nm_v1.Req(ask=dep_request.Ask(q='x'))\n"
+                 "assert nm_v1.Req.deserialize(nm_v1.Req.serialize(r)).ask.q == 'x'\nprint('ok')")
 
 
 def _ppd_variant(chk, variant, dep_api, api, code_body):
